@@ -65,6 +65,11 @@ def stepCur (S : Sekai.Ident.State) (toks : List String) : Sekai.Ident.State × 
       let S1 := Sekai.Ident.gentxClaim S0 7 "genesisval" 0
       (S, s!"counter={S1.lastRecordId} max={S1.records.foldl (fun m r => max m r.id) 0} n={S1.records.length}")
     | _, _ => (S, "bad-op")
+  | ["hardfork", nrec, recCtr, nreq, reqCtr] =>
+    -- new-genesis-from-exported: the identity part of the exported state passes through unchanged (the model of the tool is the identity on it)
+    match nat? nrec, nat? recCtr, nat? nreq, nat? reqCtr with
+    | some nrec, some rc, some nreq, some qc => (S, s!"records={nrec} counter={rc} requests={nreq} counter={qc}")
+    | _, _, _, _ => (S, "bad-op")
   | ["init-keys", ks] => ({ S with uniqueKeys := decS ks }, "ok")
   | ["grant", what, a] =>
     match nat? a with
